@@ -126,6 +126,16 @@ def teval(t: Term, env: dict):
     if op == "call:math.ceil":
         import math
         return math.ceil(ev(a[0]))
+    if op == "isinstance" and len(a) == 2:
+        types = {"int": int, "str": str, "bytes": bytes, "list": list, "dict": dict, "tuple": tuple, "bool": bool, "float": float, "set": set}
+        refs = a[1].args if isinstance(a[1], App) and a[1].op == "tuple" else [a[1]]
+        ts = []
+        for r in refs:
+            if isinstance(r, Ref) and r.kind == "builtin" and r.obj in types:
+                ts.append(types[r.obj])
+            else:
+                raise Unknown(f"isinstance against {r}")
+        return isinstance(ev(a[0]), tuple(ts))
     if op == "slice":
         try:
             return ev(a[0])[ev(a[1]):ev(a[2]):ev(a[3])]
